@@ -81,6 +81,9 @@ func main() {
 		repo = "/repo"
 	}
 	switch os.Args[1] {
+	case "rules":
+		dumpRules(repo)
+		return
 	case "dump", "vc", "list":
 		e, err := loadEngine(repo, repoPatterns)
 		if err != nil {
